@@ -351,6 +351,7 @@ def case_sampling_escalation(rep):
             except Exception as ex:
                 rep.fail("first round does not raise", inp, got=type(ex).__name__ + ": " + str(ex)[:80])
                 continue
+            thr1 = {c: cons[c].sample_threshold for c in contests}
             for c in contests:
                 cons[c].sample_size = sizes2[c]
             skipped = False
@@ -370,6 +371,15 @@ def case_sampling_escalation(rep):
                 # (was known finding K5 until fix 9bfcd8d: the continuation now recomputes every threshold)
                 rep.fail("continue: thresholds as a fresh draw with the new sizes", inp,
                          got={c: cons[c].sample_threshold for c in contests}, expected=thr2)
+            else:
+                # the data an assertion of contest c sees: the selected cards that list c up to c's threshold, in the order returned
+                for c in contests:
+                    if sizes[c] >= 1:
+                        s1 = [i for i in r1 if c in pat[i] and nums[i] <= thr1[c]]
+                        s2 = [i for i in rc if c in pat[i] and nums[i] <= cons[c].sample_threshold]
+                        if s2[:len(s1)] != s1:
+                            rep.fail("continue: each contest's card sequence is the earlier round's with new cards appended", inp,
+                                     got={"contest": c, "round1": s1, "continued": s2})
     rep.sample({"styles": [["A"], [], ["A"]], "sample_nums": [1.5, 3.0, 4.5], "round1": {"A": 1, "B": 0}, "round2": {"A": 2, "B": 0}})
 
 
@@ -1870,3 +1880,81 @@ def case_nonneg_definitions(rep):
                                         if not math.isclose(float(p), want_p, rel_tol=1e-9, abs_tol=1e-12):
                                             rep.fail("overall p = smallest entry in random order, last entry otherwise", inp, got=float(p), expected=want_p)
     rep.sample({"test": "kaplan_wald", "u": 1.0, "t": 0.5, "N": "inf", "random_order": False, "x": [1.0, 0.0, 1.0]})
+
+
+def case_nonneg_nonanticipation(rep):
+    """C05 stated natively for *every* test and estimator / bet the library ships (the deductive scripts prove it for the martingale
+    tests and the adaptive estimators; the Kaplan and SPRT tests have no estimator to shift, so their non-anticipation is checked
+    here): two samples that agree in their first k draws have histories that agree in the first k entries; truncation leaves the
+    first k-1 entries unchanged and can only lower the k-th; the alternative / bet applied to draw j does not change with draws
+    j, j+1, ... ."""
+    from shangrla.core.NonnegMean import NonnegMean
+    lens = (2, 3, 4) if not thorough(rep) else (2, 3, 4, 5)
+    rep.bound = f"u in {{1, 1.25}}, samples over {{0, u/2, u}} of length {lens}, every cut point, N in {{inf, len+2}}, t in {{1/2, 0.4}}, " \
+                "random order; every test with every shipped estimator / bet, shrink_trunc with f in {0, 0.1}"
+    configs = [("alpha_mart", {"estim": "fixed_alternative_mean"}, {}), ("alpha_mart", {"estim": "shrink_trunc"}, {}),
+               ("alpha_mart", {"estim": "shrink_trunc"}, {"f": 0.1, "d": 2}), ("alpha_mart", {"estim": "optimal_comparison"}, {}),
+               ("betting_mart", {"bet": "fixed_bet"}, {}), ("betting_mart", {"bet": "agrapa"}, {}),
+               ("kaplan_markov", {}, {}), ("kaplan_wald", {}, {}), ("kaplan_kolmogorov", {}, {}), ("wald_sprt", {}, {})]
+
+    def same(a, b):
+        return a.shape == b.shape and np.allclose(a, b, rtol=1e-9, atol=1e-12, equal_nan=True)
+
+    for u in (1.0, 1.25):
+        for t in (0.5, 0.4):
+            for N_inf in (True, False):
+                for tname, kw, extra in configs:
+                    if tname == "kaplan_kolmogorov" and N_inf:
+                        continue
+                    if tname in ("kaplan_markov", "kaplan_wald") and not N_inf:
+                        continue
+                    if kw.get("estim") == "optimal_comparison" and u == 1.0:
+                        continue                        # (known finding K2, recorded with the deductive obligations)
+                    for n in lens:
+                        N = np.inf if N_inf else n + 2
+                        args = dict(test=getattr(NonnegMean, tname), u=u, N=N, t=t, random_order=True, g=0.1, eta=(t + u) / 2, lam=0.5 / u, **extra)
+                        for k_, v_ in kw.items():
+                            args[k_] = getattr(NonnegMean, v_)
+                        memo = {}
+
+                        def run(xs):
+                            if xs not in memo:
+                                try:
+                                    obj = NonnegMean(**args)
+                                    with np.errstate(all="ignore"):
+                                        p, h = obj.test(np.array(xs))
+                                        aux = None
+                                        if tname == "alpha_mart":
+                                            aux = np.asarray(NonnegMean(**args).estim(np.array(xs)), dtype=float) * np.ones(len(xs))
+                                        elif tname == "betting_mart":
+                                            aux = np.asarray(NonnegMean(**args).bet(np.array(xs)), dtype=float) * np.ones(len(xs))
+                                    memo[xs] = (np.asarray(h, dtype=float), aux)
+                                except Exception:
+                                    memo[xs] = None     # (whether the test returns at all is C11's clause)
+                            return memo[xs]
+
+                        for xs in itertools.product((0.0, u / 2, u), repeat=n):
+                            full = run(xs)
+                            if full is None:
+                                continue
+                            for k in range(1, n):
+                                inp = {"test": tname, **kw, **extra, "u": u, "t": t, "N": ("inf" if N_inf else N), "x": list(xs), "k": k}
+                                rep.case(inp, nontrivial=True)
+                                other = xs[:k] + (0.0,) * (n - k)       # the representative of all samples with these first k draws
+                                o = run(other)
+                                if o is not None and other != xs:
+                                    if not same(full[0][:k], o[0][:k]):
+                                        rep.fail("samples that agree in their first k draws have histories that agree in the first k entries",
+                                                 {**inp, "other": list(other)}, got=full[0][:k].tolist(), expected=o[0][:k].tolist())
+                                    if full[1] is not None and o[1] is not None and not same(full[1][:k + 1], o[1][:k + 1]):
+                                        rep.fail("the alternative / bet applied to draw j is unaffected by draws j, j+1, ...",
+                                                 {**inp, "other": list(other)}, got=full[1][:k + 1].tolist(), expected=o[1][:k + 1].tolist())
+                                if True:
+                                    # truncation (the declared population size stays what it was)
+                                    tr = run(xs[:k])
+                                    if tr is not None:
+                                        if not same(tr[0][:k - 1], full[0][:k - 1]):
+                                            rep.fail("truncation leaves the first k-1 entries unchanged", inp, got=tr[0].tolist(), expected=full[0][:k].tolist())
+                                        elif not (np.isnan(tr[0][k - 1]) and np.isnan(full[0][k - 1])) and not (tr[0][k - 1] <= full[0][k - 1] + 1e-12):
+                                            rep.fail("truncation can only lower the k-th entry", inp, got=float(tr[0][k - 1]), expected=float(full[0][k - 1]))
+    rep.sample({"test": "wald_sprt", "u": 1.0, "t": 0.5, "N": 5, "x": [1.0, 0.0, 1.0], "k": 2})
